@@ -1,6 +1,7 @@
 import Model.Spec
 import Proofs.Validation
 import Proofs.Chain
+import Proofs.Value
 import Props.C16
 
 /-!
@@ -50,8 +51,8 @@ theorem accept_transaction_values (cs cs' : CoinState) (b : Block) (now : Int)
 theorem blockFees_nonneg (u : Utxo) (rest : List CTx) (fees : Int)
     (hf : blockFees u rest = .ok fees)
     (hall : ∀ t ∈ rest, ∃ total, inputsValue u t.tx.inputs = .ok total ∧ outputsValue t.tx.outputs ≤ total) :
-    0 ≤ fees := by
-  sorry
+    0 ≤ fees :=
+  blockFees_nonneg' u rest fees hf hall
 
 /-- conservation: the total value of unspent outputs after an accepted block never exceeds the
 total after its parent plus that height's subsidy -/
@@ -59,7 +60,28 @@ theorem conservation (cs cs' : CoinState) (b : Block) (now : Int)
     (h : addBlock C P cs b now = .ok cs') (hz : P.maxKnownHeight < b.height) :
     ∃ u u', cs.utxoAt.get? b.prev = some u ∧ cs'.utxoAt.get? (b.id C) = some u' ∧
       totalValue u' ≤ totalValue u + subsidy P b.height := by
-  sorry
+  obtain ⟨h1, h2, h3⟩ := addBlock_ok C P cs cs' b now h
+  obtain ⟨_, _, ⟨u, cb, rest, fees, hu, htx, hf, hle, _⟩⟩ :=
+    validateBlockInState_ok C P cs b (by omega) h2
+  obtain ⟨_, _, ⟨cb', rest', htx', _, _, _, hnd⟩, _, _⟩ := validateBlockByItself_ok C P b now h1
+  rw [htx] at htx'
+  cases htx'
+  obtain ⟨u₀, u', hz0, hnz0, happ, hset⟩ := add_ok_utxo_value C h3
+  refine ⟨u, u', hu, by rw [hset, Map.get?_set_self], ?_⟩
+  -- the accounting: what the block leaves is what its references did not touch, plus all outputs
+  have hacc := totalValue_utoApplyBlock C u₀ u' b cb rest htx happ
+  have hcover := N_add_refsValue_le u (allRefs rest) hnd
+  have hfees := blockFees_eq u rest fees hf
+  -- the starting map of `add_block_no_validation` holds no more than the parent's map outside
+  -- the block's references (it is the parent's map, or empty when the parent id is all zeros)
+  have hstart : N u₀ (allRefs rest) ≤ N u (allRefs rest) := by
+    by_cases hz' : b.prev = zeros 32
+    · rw [hz0 hz', N_nil_map]; exact Nat.zero_le _
+    · have := hnz0 hz'
+      rw [hu] at this
+      cases this
+      exact Nat.le_refl _
+  omega
 
 /-- a chain all of whose non-genesis blocks were accepted by full validation above the horizon,
 starting from a genesis block that is a lone reward of at most subsidy(0): the unspent total at
@@ -79,13 +101,65 @@ def schedule : Nat → Nat
 
 theorem supply_bound (cs : CoinState) (tip : Block) (hv : ValidChain C P cs tip) :
     ∃ u, cs.utxoAt.get? (tip.id C) = some u ∧ totalValue u ≤ schedule P (tip.height + 1) := by
-  sorry
+  -- strengthened induction: the tip is the block stored under its own id
+  have aux : cs.blocks.get? (tip.id C) = some tip ∧
+      ∃ u, cs.utxoAt.get? (tip.id C) = some u ∧ totalValue u ≤ schedule P (tip.height + 1) := by
+    induction hv with
+    | genesis g cs u hadd _ hh hu hle =>
+      refine ⟨?_, u, hu, ?_⟩
+      · rw [(add_ok_inv C hadd).1, Map.get?_set_self]
+      · rw [hh]
+        simp only [schedule]
+        omega
+    | step cs cs' p b now _ hprev hadd hz _ ih =>
+      obtain ⟨hp, up, hup, hsup⟩ := ih
+      obtain ⟨h1, h2, h3⟩ := addBlock_ok C P cs cs' b now hadd
+      refine ⟨by rw [(add_ok_inv C h3).1, Map.get?_set_self], ?_⟩
+      obtain ⟨⟨pb, hpb, _, hheight, _⟩, _, _⟩ := validateBlockInState_ok C P cs b (by omega) h2
+      rw [hprev, hp] at hpb
+      cases hpb
+      obtain ⟨u, u', hu, hu', hle⟩ := conservation C P cs cs' b now hadd hz
+      rw [hprev, hup] at hu
+      cases hu
+      refine ⟨u', hu', ?_⟩
+      rw [hheight] at hle ⊢
+      simp only [schedule] at hsup ⊢
+      omega
+  exact aux.2
 
 /-- with the production constants regenerated from /repo: never more than the documented
 maximum of 20,999,999.8635 coin -/
 theorem supply_bound_production (cs : CoinState) (tip : Block) (hv : ValidChain C Gen.params cs tip) :
     ∃ u, cs.utxoAt.get? (tip.id C) = some u ∧ totalValue u ≤ 2099999986350000 := by
-  sorry
+  obtain ⟨u, hu, hle⟩ := supply_bound C Gen.params cs tip hv
+  have hs : ∀ n, schedule Gen.params n = C16.supply n := by
+    intro n
+    induction n with
+    | zero => rfl
+    | succ n ih => simp only [schedule, C16.supply, ih]
+  rw [hs] at hle
+  exact ⟨u, hu, Nat.le_trans hle (C16.supply_le_max _)⟩
+
+/-! ## non-vacuity / spot values -/
+
+/-- the schedule under the production constants: 10 coin per block at the start -/
+example : schedule Gen.params 0 = 0 ∧ schedule Gen.params 3 = 3000000000 := by
+  refine ⟨rfl, ?_⟩
+  simp only [schedule]
+  rw [C16.subsidy_first_era 0 (by omega), C16.subsidy_first_era 1 (by omega),
+    C16.subsidy_first_era 2 (by omega)]
+
+/-- the accounting vocabulary on a concrete map that even holds one key twice: the total counts
+every entry, `N` leaves out every entry under a listed key, the look-up sees only the first one,
+and erasing a key removes all its entries -/
+example :
+    let r₁ : OutRef := ⟨[1], 0⟩
+    let r₂ : OutRef := ⟨[2], 0⟩
+    let u : Utxo := [(r₁, ⟨5, []⟩), (r₂, ⟨7, []⟩), (r₁, ⟨11, []⟩)]
+    totalValue u = 23 ∧ N u [r₁] = 7 ∧ N u [] = 23 ∧ refsValue u [r₁, r₂] = 12 ∧
+      N u [r₁, r₂] + refsValue u [r₁, r₂] ≤ totalValue u ∧
+      totalValue (u.erase r₁) = 7 ∧ totalValue (u.set r₂ ⟨1, []⟩) = 17 := by
+  decide
 
 end C02
 end Model
